@@ -37,6 +37,12 @@ var argVariants = [][]MArg{
 	{aggOf(false)},
 	{scalar(ptrFloor)},
 	{scalar(ptrFloor + 1)},
+	{{V: 1, Inacc: true}},
+	{{V: 2, Inacc: true}},
+	{{V: 0xc000010000, Ptr: true, Inacc: true}},
+	{{V: 0xc000020000, Ptr: true, Inacc: true}},
+	{scalar(1), {V: 7, Inacc: true}},
+	{scalar(2), {V: 7, Inacc: true}},
 }
 
 type frameKind struct {
